@@ -1058,3 +1058,50 @@ func sliceExprLen(v ssa.Value) (int64, bool) {
 	}
 	return 0, false
 }
+
+// DL.RECURSE — a decoder that skips input by calling itself (return p.Read()
+// after a comment line) uses one stack frame per skipped item: the depth of the
+// recursion is chosen by the input, and Go's stack limit turns enough of it
+// into a fatal, unrecoverable stack overflow. Reported: a direct self-call in
+// a function of the decoder scope that is reachable after a read of input in
+// the same activation (recursion over the structure of already decoded data -
+// no read before the call - is not reported).
+func (s *decScope) ruleDLRecurse(rule string) {
+	c := s.c
+	for _, fn := range s.fns {
+		if fn.Blocks == nil {
+			continue
+		}
+		n := 0
+		for _, b := range fn.Blocks {
+			for _, ins := range b.Instrs {
+				call, ok := ins.(*ssa.Call)
+				if !ok || call.Call.StaticCallee() != fn {
+					continue
+				}
+				n++
+				key := fmt.Sprintf("%s self-call#%d", qname(fn), n)
+				// a read of input before the call in this activation?
+				reads := false
+				for _, b2 := range fn.Blocks {
+					if !(b2 == b || reaches(b2, b)) {
+						continue
+					}
+					for _, i2 := range b2.Instrs {
+						if i2 == ins {
+							break
+						}
+						if c2, ok := i2.(*ssa.Call); ok && c2 != call && (primitiveConsume(c2) || (c2.Call.StaticCallee() != nil && c2.Call.StaticCallee() != fn && looksLikeRead(c2.Call.StaticCallee()))) {
+							reads = true
+						}
+					}
+				}
+				if reads {
+					c.bad(rule, key, call.Pos(), "the decoder calls itself after consuming input in the same activation: one stack frame per skipped item, so the input chooses the recursion depth (fatal stack overflow for a long enough run)")
+				} else {
+					c.ok(rule, key, call.Pos(), "recursion without a preceding read in the same activation (structural)")
+				}
+			}
+		}
+	}
+}
